@@ -246,4 +246,37 @@ Definition DTCWTInverse (low:option ten) (highs:list (list ten)) (Lo0:Z) (g0o:Z-
       (* INV_J1 crops again inside inv_j1 (idempotent) *)
       inv_j1 (crop_opt l h0) h0 Lo0 g0o Lo1 g1o mode
   end.
+(* ---- band-pass ("rot") variants used by the scattering layers: a third filter h2 for the diagonal subbands ---- *)
+Definition fwd_j1_rot (x:ten) (L0:Z) (h0:Z->R) (L1:Z) (h1:Z->R) (L2:Z) (h2:Z->R) (mode:Z) : res (ten * list ten) :=
+  do lo <- linefilter 3 x L0 h0 mode;
+  do hi <- linefilter 3 x L1 h1 mode;
+  do ba <- linefilter 3 x L2 h2 mode;
+  do lh <- linefilter 2 lo L1 h1 mode;
+  do hl <- linefilter 2 hi L0 h0 mode;
+  do hh <- linefilter 2 ba L2 h2 mode;
+  do ll <- linefilter 2 lo L0 h0 mode;
+  Ok (ll, highs_to_orientations lh hl hh).
+Definition fwd_j2plus_rot (x:ten) (L0:Z) (h0a h0b:Z->R) (L1:Z) (h1a h1b:Z->R) (L2:Z) (h2a h2b:Z->R) : res (ten * list ten) :=
+  do lo <- dfilt 3 x L0 h0b h0a false;
+  do hi <- dfilt 3 x L1 h1b h1a true;
+  do ba <- dfilt 3 x L2 h2b h2a true;
+  do lh <- dfilt 2 lo L1 h1b h1a true;
+  do hl <- dfilt 2 hi L0 h0b h0a false;
+  do hh <- dfilt 2 ba L2 h2b h2a true;
+  do ll <- dfilt 2 lo L0 h0b h0a false;
+  Ok (ll, highs_to_orientations lh hl hh).
+(* inv_j1_rot / inv_j2plus_rot with both inputs present (the only way the scattering backward calls them) *)
+Definition inv_j1_rot (l:ten) (hs:list ten) (L0:Z) (g0:Z->R) (L1:Z) (g1:Z->R) (L2:Z) (g2:Z->R) (mode:Z) : res ten :=
+  let '(lh, hl, hh) := orientations_to_highs hs in
+  let l := crop_ll l (tH (pl hs 0 0)) (tW (pl hs 0 0)) in
+  do lo <- radd_res (linefilter 2 lh L1 g1 mode) (linefilter 2 l L0 g0 mode);
+  do hi <- linefilter 2 hl L0 g0 mode;
+  do ba <- linefilter 2 hh L2 g2 mode;
+  radd_res (radd_res (linefilter 3 hi L1 g1 mode) (linefilter 3 lo L0 g0 mode)) (linefilter 3 ba L2 g2 mode).
+Definition inv_j2plus_rot (l:ten) (hs:list ten) (L0:Z) (g0a g0b:Z->R) (L1:Z) (g1a g1b:Z->R) (L2:Z) (g2a g2b:Z->R) : res ten :=
+  let '(lh, hl, hh) := orientations_to_highs hs in
+  do lo <- radd_res (ifilt 2 lh L1 g1b g1a true) (ifilt 2 l L0 g0b g0a false);
+  do hi <- ifilt 2 hl L0 g0b g0a false;
+  do ba <- ifilt 2 hh L2 g2b g2a true;
+  radd_res (radd_res (ifilt 3 hi L1 g1b g1a true) (ifilt 3 lo L0 g0b g0a false)) (ifilt 3 ba L2 g2b g2a true).
 End Dtcwt.
